@@ -27,6 +27,10 @@ var spCallees = map[string]bool{
 	"(*sync.Cond).Wait":      true,
 	"(sync.Locker).Lock":     true,
 	"time.Sleep":             true,
+	// scheduling points only for harnesses that called verifPoolReuse() (intr_C30c.go); without a
+	// forced schedule verifSP() is a no-op
+	"(*sync.Pool).Get": true,
+	"(*sync.Pool).Put": true,
 }
 
 // InstrumentPackage returns instrumented sources (file name -> content) of the package with
